@@ -45,6 +45,31 @@ class LayoutMonitor(object):
                         if node.currentPos != it["pos"]:
                             moved.append((li, it["pos"], node.currentPos))
                 rec["moved_after_solve"] = moved[:5]
+                # targets as the property defines them, independent of the parent pointer the code follows:
+                # layer 0 -> the data position; layer k -> the final position of the item's own stub in layer k-1
+                # (the stub of layer k-1 whose child is this item)
+                rec["target_problems"] = []
+                prev = None
+                for li, L in enumerate(rec["layers"]):
+                    if L["items"] is None:
+                        prev = None
+                        continue
+                    if li > 0 and prev is not None:
+                        by_child = {}
+                        for pn, pit in zip(prev["nodes"], prev["items"]):
+                            ch = getattr(pn, "child", None)
+                            if ch is not None:
+                                by_child[id(ch)] = pit["pos"]
+                    for node, it in zip(L["nodes"], L["items"]):
+                        it["t_parent_rule"] = it["t"]
+                        if li == 0:
+                            it["t"] = node.idealPos
+                        elif prev is not None:
+                            if id(node) in by_child:
+                                it["t"] = by_child[id(node)]
+                            else:
+                                rec["target_problems"].append({"layer": li, "rule": "item of a deeper layer has no stub in the layer below", "idealPos": node.idealPos})
+                    prev = L
                 mon.computes.append(rec)
 
         def on_remove_overlap(orig, args, kwargs):
